@@ -117,7 +117,7 @@ def rb(rng, n):
     return bytes(rng.getrandbits(8) for _ in range(n))
 
 
-LENS = [1, 2, 3, 31, 32, 33, 34, 64, 65, 96, 97, 127, 128, 129, 130, 256, 257, 258, 385]
+LENS = [1, 2, 3, 31, 32, 33, 34, 64, 65, 96, 97, 127, 128, 129, 130, 256, 257, 258, 384, 385, 386]
 WIDTHS64 = [0, 1, 7, 8, 9, 31, 32, 33, 40, 63, 64]
 
 
@@ -266,6 +266,16 @@ def gen_bss(tier, rng):
         k = bss_width(kind)
         for n in (100, 127, 128, 129, 255, 256, 257, 1000):
             out.append(Case("bss", (kind, n * k), [rb(rng, k) for _ in range(n)], kind + "-long"))
+    # value counts around powers of two where an implementation may cut its work into blocks: the K streams must
+    # still be whole-input streams (too large for the extracted model: implementation against the specification only)
+    big = [4095, 4096, 4097, 32767, 32768, 32769, 65535, 65536, 65537]
+    if tier == "thorough":
+        big += [8191, 8192, 8193, 16383, 16384, 16385, 100003, 131073]
+    for kind in ("f32", "f64", "4", "3"):
+        k = bss_width(kind)
+        for n in (big if kind in ("f32", "f64") else [4097, 32769]):
+            raw = rng.randbytes(n * k)
+            out.append(Case("bss", (kind, n * k), [raw[i * k:(i + 1) * k] for i in range(n)], "big"))
     return out
 
 
@@ -365,8 +375,35 @@ def _prepare(rep, tier, rng):
     for c, a, b in zip(cases, impl, model):
         c.impl_enc, c.model_enc = a, b
     st["cases"] = cases
+    # the same encoders on NON-EMPTY output buffers (they append: level bytes of a page, an earlier page, ...)
+    pcs, plines = [], []
+    for c in cases:
+        if c.fam not in ("plain", "dl", "ds", "dict") or c.tag == "big":
+            continue
+        if c.tag in ("exh", "bool-exh") and rng.random() > 0.05:
+            continue
+        if rng.random() > (1.0 if tier == "thorough" else 0.4) and c.tag not in ("words", "single", "ba", "long"):
+            continue
+        pre = rb(rng, rng.choice([1, 2, 9, 9, 60, 300, 5000]))
+        t = c.enc_line.split()
+        plines.append("%sp %s %s" % (t[0], " ".join(t[1:]), hx(pre)))
+        pcs.append((c, pre))
+    impl, p1 = run_sharded(st["drv"], plines)
+    model, p2 = run_sharded(st["run"], plines)
+    st["prefix"] = [(c, pre, l, a, b) for (c, pre), l, a, b in zip(pcs, plines, impl, model)]
+    st["died_prefix"] = p1
     st["ok"] = True
     return st
+
+
+def prefix_expect(c, pre):
+    """what an appending encoder must leave in a buffer that held `pre`: pre, then its encoding on an empty buffer"""
+    t = c.impl_enc.split()
+    if t[0] != "OK":
+        return c.impl_enc
+    if c.fam == "dict":
+        return "OK %s %s %s" % (hx(pre + unhx(t[1])), hx(pre + unhx(t[2])), " ".join(t[3:]))
+    return "OK " + hx(pre + unhx(t[1]))
 
 
 def _dist(cases):
@@ -526,7 +563,7 @@ def check_enc2_c11(rep, tier, rng):
     dict_cases, dict_lines = [], []
     for c in cases:
         a, b = c.impl_enc, c.model_enc
-        if a != b:
+        if b != "SKIP" and a != b:
             rep.tie_broken("enc2 encoder model differs from implementation (%s %s): model %s / impl %s"
                            % (c.fam, c.tag, b[:160], a[:160]), c.enc_line[:2000])
         t = a.split()
@@ -566,7 +603,7 @@ def check_enc2_c11(rep, tier, rng):
                           % (c.fam, c.tag, a[:200], want[:200]),
                           _rp("roundtrip", l, want, encode=c.enc_line, impl=a, dec_prefix=" ".join(l.split()[:-1]),
                               want_vals=want.split()[-1], with_count=(c.fam != "bss")))
-        if a != b:
+        if b != "SKIP" and a != b:
             rep.tie_broken("enc2 decoder model differs from implementation (%s %s): model %s / impl %s"
                            % (c.fam, c.tag, b[:160], a[:160]), l[:2000])
 
@@ -585,7 +622,7 @@ def check_enc2_c11(rep, tier, rng):
             back = [entries[i] for i in idxs] if entries is not None and all(i < len(entries) for i in idxs) else None
             if back != c.vals or used != len(unhx(dpage)):
                 rep.violation("enc2 dictionary round trip fails (byte_array %s): indices/dictionary do not give back the values"
-                              % c.tag, _rp("dict-ba", c.enc_line[:4000], impl=c.impl_enc[:400]))
+                              % c.tag, _rp("dict-ba", c.enc_line, impl=c.impl_enc[:400]))
             continue
         k = 4 if c.par in ("i32", "f32") else 8
         ndict = len(unhx(dpage)) // k
@@ -600,7 +637,7 @@ def check_enc2_c11(rep, tier, rng):
         want_page = b"".join(v.to_bytes(k, "little") for v in seen)
         if unhx(dpage) != want_page:
             rep.violation("enc2 dictionary page is not the distinct values in first-occurrence order (%s %s)" % (c.par, c.tag),
-                          _rp("dict-page", c.enc_line[:4000], hx(want_page), impl=c.impl_enc[:400]))
+                          _rp("dict-page", c.enc_line, hx(want_page), impl=c.impl_enc[:400]))
     impl, p1 = run_sharded(drv, dl)
     model, p2 = run_sharded(run, dl)
     for pr in p1:
@@ -612,6 +649,65 @@ def check_enc2_c11(rep, tier, rng):
                           _rp("dict-roundtrip", l, want, encode=c.enc_line, impl=a, ty=c.par, n=len(c.vals)))
         if a != b:
             rep.tie_broken("enc2 dictionary decoder model differs (%s %s): model %s / impl %s" % (c.par, c.tag, b[:160], a[:160]), l[:2000])
+
+    # ---- encoders on non-empty buffers: the content already there stays, what is appended is the encoding
+    for pr in st["died_prefix"]:
+        rep.violation("enc2: an encoder died when appending to a non-empty buffer (rc=%s): %s" % (pr[1], pr[2][-500:]), _rp("line", pr[3]))
+    for c, pre, l, a, b in st["prefix"]:
+        rep.count(l, nontrivial=len(c.vals) > 0)
+        want = prefix_expect(c, pre)
+        if a != want:
+            rep.violation("enc2: %s encoder on a buffer that already holds %d bytes: the buffer is not <those bytes><encoding> (%s): %s, expected %s"
+                          % (c.fam, len(pre), c.tag, a[:160], want[:160]), _rp("line-expect", l, want, impl=a))
+        if b != "SKIP" and a != b:
+            rep.tie_broken("enc2 encoder model differs on a non-empty buffer (%s %s): model %s / impl %s" % (c.fam, c.tag, b[:120], a[:120]), l[:2000])
+
+    # ---- decoders given more bytes than the stream (data_size is what is available, not the encoded size): the values and
+    #      the consumed count must be those of the stream; stream lengths 1+128k-1, 1+128k, 1+128k+1 always included
+    sl_lines, sl_meta = [], []
+    p_slack = 1.0 if tier == "thorough" else 0.25
+    for (c, nb), l in zip(dec_cases, dec_lines):
+        if not c.vals or (c.tag in ("exh", "bool-exh") and rng.random() > 0.1):
+            continue
+        n = len(c.vals)
+        edge = c.fam in ("d32", "d64", "dl", "ds") and n in (127, 128, 129, 130, 256, 257, 258, 384, 385, 386)
+        if not (edge or c.fam == "bss" or rng.random() < p_slack):
+            continue
+        data = unhx(l.split()[-1])
+        if c.fam == "bss":
+            k = bss_width(c.par[0])
+            slacks = {1, k - 1, k, 3 * k + 2} if c.tag != "big" else {k}
+        elif c.fam == "plain" and c.par in ("i32", "f32", "i64", "f64", "i96"):
+            k = {"i32": 4, "f32": 4, "i64": 8, "f64": 8, "i96": 12}[c.par]
+            slacks = {1, k, 2 * k + 1}
+        else:
+            slacks = {1, 5, rng.choice([8, 13, 40])}
+        for sk in sorted(x for x in slacks if x > 0):
+            tail = rng.choice([rb(rng, sk), bytes(sk), b"\xff" * sk, bytes([rng.choice([1, 2, 4, 0x80])]) * sk])
+            sl_lines.append(dec_line(c, data + tail))
+            sl_meta.append((c, nb, sk))
+    # dictionary: more bytes after the dictionary entries and after the index stream
+    for c in dict_cases:
+        if c.par == "ba" or not c.vals or (c.tag == "exh" and rng.random() > 0.05) or rng.random() > max(p_slack, 0.3):
+            continue
+        t = c.impl_enc.split()
+        k = 4 if c.par in ("i32", "f32") else 8
+        nd = len(unhx(t[1])) // k
+        sl_lines.append("dict_dec %s %d %d %s %s" % (c.par, nd, len(c.vals), hx(unhx(t[1]) + rb(rng, rng.choice([1, k, 9]))),
+                                                     hx(unhx(t[2]) + rb(rng, rng.choice([1, 4, 11])))))
+        sl_meta.append((c, None, 0))
+    impl, p1 = run_sharded(drv, sl_lines)
+    model, p2 = run_sharded(run, sl_lines)
+    for pr in p1:
+        rep.violation("enc2: a decoder died on a valid stream followed by more bytes (rc=%s): %s" % (pr[1], pr[2][-500:]), _rp("line", pr[3]))
+    for (c, nb, sk), l, a, b in zip(sl_meta, sl_lines, impl, model):
+        rep.count(l)
+        want = "OK " + nums(c.vals) if c.fam == "dict" else expect_dec(c, nb)
+        if a != want:
+            rep.violation("enc2 round trip fails when %s bytes follow the stream in the buffer: %s %s (n=%d) gives %s, expected %s"
+                          % (sk or "some", c.fam, c.tag, len(c.vals), a[:160], want[:160]), _rp("line-expect", l, want, impl=a))
+        if b != "SKIP" and a != b:
+            rep.tie_broken("enc2 decoder model differs with trailing bytes (%s %s): model %s / impl %s" % (c.fam, c.tag, b[:120], a[:120]), l[:2000])
 
     # ---- malformed inputs: model and implementation must agree (values, consumed, status)
     mal = gen_malformed(tier, rng, cases)
@@ -631,7 +727,8 @@ def check_enc2_c11(rep, tier, rng):
         if a != b:
             rep.tie_broken("enc2 decoder model differs on a malformed input: model %s / impl %s" % (b[:160], a[:160]), l[:2000])
     d = rep.cov.setdefault("input_distribution", {})
-    d["enc2"] = dict(_dist(cases), malformed=nmal, corpus=len(corpus))
+    d["enc2"] = dict(_dist(cases), malformed=nmal, corpus=len(corpus), non_empty_buffer=len(st["prefix"]),
+                     trailing_bytes=len(sl_lines))
     rep.sample({"enc2": cases[len(cases) // 3].enc_line[:300]})
     rep.sample({"enc2": cases[-7].enc_line[:300]})
 
@@ -786,17 +883,38 @@ def check_enc2_c12(rep, tier, rng):
         if got != want or used != len(data):
             rep.violation("enc2: carquet's %s %s output is not read back by the specification decoder (%s)"
                           % (c.fam, c.tag, got if isinstance(got, str) else "values differ or %d of %d bytes used" % (used, len(data))),
-                          _rp("encode-refdecode", c.enc_line[:6000], fam=c.fam, par=c.par, impl=c.impl_enc[:600]))
+                          _rp("encode-refdecode", c.enc_line, fam=c.fam, par=c.par, impl=c.impl_enc[:600]))
         if (c.fam == "plain" and rng.random() < 0.15) or \
            (c.fam != "plain" and len(data) <= 1200 and (rng.random() < sub or c.tag.startswith("w"))):
             spec_lines.append(spec_line(c, data))
             spec_meta.append((c, len(data)))
+    # the same when the encoder appends to a buffer that already holds data: what follows that data must be a stream the
+    # specification decoder reads back (and the data must still be there)
+    for c, pre, l, a, b in st["prefix"]:
+        if c.fam == "dict" or not (c.impl_enc or "").startswith("OK") or (c.fam in ("dl", "ds") and not c.vals):
+            continue
+        rep.count("c12p " + l, nontrivial=len(c.vals) > 0)
+        t = a.split()
+        whole = unhx(t[1]) if t[0] == "OK" and len(t) > 1 else None
+        if whole is None or whole[:len(pre)] != pre:
+            got, used, app = "the %d bytes already in the buffer were not kept (%s)" % (len(pre), a[:80]), -1, b""
+        else:
+            app = whole[len(pre):]
+            try:
+                got, used = ref_decode(c, app)
+            except R.SpecError as e:
+                got, used = "reference decoder rejects the appended bytes: %s" % e, -1
+        want = [1 if v else 0 for v in c.vals] if (c.fam == "plain" and c.par == "bool") else c.vals
+        if got != want or used != len(app):
+            rep.violation("enc2: what carquet's %s encoder appends to a non-empty buffer is not read back by the specification decoder (%s, %s)"
+                          % (c.fam, c.tag, got if isinstance(got, str) else "values differ or %d of %d bytes used" % (used, len(app))),
+                          _rp("line-expect", l, prefix_expect(c, pre), impl=a))
     sp, p2 = run_sharded(run, spec_lines)
     for pr in p2:
         rep.tie_broken("enc2 runner died in the Coq specification decoder (rc=%s): %s" % (pr[1], pr[2][-300:]), pr[3])
     for (c, nb), l, b in zip(spec_meta, spec_lines, sp):
         want = spec_expect(c, nb)
-        if b != want:
+        if b != "SKIP" and b != want:
             # Python reference accepted it (above) and the Coq specification does not: the two transcriptions differ
             rep.tie_broken("enc2: extracted Coq specification decoder disagrees on carquet's %s %s output: %s, expected %s"
                            % (c.fam, c.tag, b[:160], want[:160]), l[:2000])
@@ -824,7 +942,7 @@ def check_enc2_c12(rep, tier, rng):
         if a != want:
             rep.violation("enc2: carquet's %s decoder does not return the values of a legal stream (%s, %s): %s, expected %s"
                           % (c.fam, label, c.tag, a[:200], want[:200]), _rp("line-expect", l, want, impl=a, variant=label))
-        if a != b:
+        if b != "SKIP" and a != b:
             rep.tie_broken("enc2 decoder model differs on a reference stream (%s %s): model %s / impl %s" % (c.fam, label, b[:160], a[:160]), l[:2000])
 
     # ---- Coq specification vs Python reference on the variant streams (validation of the transcription)
@@ -836,7 +954,7 @@ def check_enc2_c12(rep, tier, rng):
     sp, p2 = run_sharded(run, sl)
     for (c, label, nb), l, b in zip(sm, sl, sp):
         want = spec_expect(c, nb)
-        if b != want:
+        if b != "SKIP" and b != want:
             rep.tie_broken("enc2: extracted Coq specification decoder rejects/misreads a Python-reference stream (%s %s): %s, expected %s"
                            % (c.fam, label, b[:160], want[:160]), l[:2000])
 
@@ -865,6 +983,7 @@ def check_enc2_c12(rep, tier, rng):
             rep.tie_broken("enc2 decoder model differs on geometry %d/%d: model %s / impl %s" % (block, minis, b[:120], a[:120]), l[:2000])
     d = rep.cov.setdefault("input_distribution", {})
     d["enc2_c12"] = {"carquet_streams": len([c for c in cases if (c.impl_enc or "").startswith("OK")]),
+                     "appended_to_non_empty_buffer": len([1 for x in st["prefix"] if x[0].fam != "dict"]),
                      "reference_streams": vdist, "coq_spec_cross_checks": len(spec_lines) + len(sl),
                      "other_geometries": len(glines),
                      "geometries_accepted_besides_128/4": sorted(accepted)}
@@ -960,9 +1079,26 @@ def replay_enc2(j):
             elif fam in ("dl", "ds"):
                 vals = [b"" if x == "." else bytes.fromhex(x) for x in toks[1].split(",")]
                 got_v, used = (R.delta_length_dec if fam == "dl" else R.delta_strings_dec)(data)
-            else:
-                print("re-run ./check ENC2 for this family")
-                return 1
+            elif fam == "bss":
+                k = bss_width(par[0])
+                raw = unhx(toks[3])
+                vals = [raw[i * k:(i + 1) * k] for i in range(len(raw) // k)]
+                back = R.bss_dec(data, k, len(vals))
+                got_v, used = [back[i * k:(i + 1) * k] for i in range(len(vals))], len(data)
+            else:   # plain
+                ty = par
+                if ty == "ba":
+                    vals = [b"" if x == "." else bytes.fromhex(x) for x in toks[2].split(",")] if toks[2] != "-" else []
+                    got_v, used = R.plain_dec("ba", data, len(vals))
+                elif ty.startswith("flba"):
+                    w = int(ty[4:]); raw = unhx(toks[2])
+                    vals = [raw[i * w:(i + 1) * w] for i in range(len(raw) // w)]
+                    got_v, used = R.plain_dec("flba", data, len(vals), w)
+                else:
+                    vals = [int(x, 16) for x in toks[2].split(",")] if toks[2] != "-" else []
+                    if ty == "bool":
+                        vals = [1 if v else 0 for v in vals]
+                    got_v, used = R.plain_dec(ty, data, len(vals) // 3 if ty == "i96" else len(vals))
         except R.SpecError as e:
             print("reference decoder:", e)
             return 1
